@@ -6,6 +6,7 @@ package xmpp
 import (
 	"fmt"
 	"math/rand"
+	"os"
 	"strings"
 	"sync"
 	"sync/atomic"
@@ -18,7 +19,7 @@ import (
 
 type vfC13Case struct {
 	SM     bool     `json:"sm"`
-	Faults []string `json:"faults"` // rst | fin | graceful | refuse-m | down-m | garbage | permanent-sasl
+	Faults []string `json:"faults"` // rst | fin | graceful | refuse-m | down-m | garbage | abort-{auth,success,bind} | loss-in-postconnect | stop-during-outage | permanent-sasl
 	Seed   int64    `json:"seed"`
 }
 
@@ -38,6 +39,28 @@ type vfC13Peer struct {
 	established chan *vfC13Sess
 	sm          bool
 	firstDone   bool
+	conns       []*vfPeerConn
+	disturbed   int32 // application stanzas that arrived in the middle of a negotiation (skipped by the peer)
+}
+
+// expect is Expect, except that stanzas the application sent while the reconnection was in progress (the library writes
+// them to the new socket in the middle of the negotiation) are skipped, as a lenient server would: the planned
+// behaviour of an attempt must not be consumed by an attempt that the harness's own traffic derailed.
+func (p *vfC13Peer) expect(pc *vfPeerConn, local string) (vfElem, error) {
+	for {
+		e, err := pc.Next()
+		if err != nil {
+			return e, err
+		}
+		if e.Local == "message" && local != "message" {
+			atomic.AddInt32(&p.disturbed, 1)
+			continue
+		}
+		if e.Local != local {
+			return e, fmt.Errorf("peer expected <%s>, client sent %s <%s>", local, e.Kind, e.Local)
+		}
+		return e, nil
+	}
 }
 
 func (p *vfC13Peer) next() string {
@@ -52,12 +75,19 @@ func (p *vfC13Peer) next() string {
 }
 
 func (p *vfC13Peer) handle(pc *vfPeerConn) {
-	atomic.AddInt32(&p.attempts, 1)
-	b := p.next()
 	neg := &vfNeg{Bind: true, SM: p.sm, Mechs: []string{"PLAIN"}}
-	if _, err := pc.Expect("stream"); err != nil {
+	p.mu.Lock()
+	p.conns = append(p.conns, pc)
+	p.mu.Unlock()
+	if e, err := pc.Expect("stream"); err != nil {
+		if e.Local == "message" {
+			atomic.AddInt32(&p.disturbed, 1) // an application stanza overtook the stream header: not an attempt the plan speaks about
+		}
 		return
 	}
+	// an attempt counts, and consumes its planned behaviour, once the client has opened the stream
+	atomic.AddInt32(&p.attempts, 1)
+	b := p.next()
 	switch b {
 	case "refuse":
 		pc.Close()
@@ -72,7 +102,11 @@ func (p *vfC13Peer) handle(pc *vfPeerConn) {
 		}
 	}
 	pc.Send(vfStreamHeader("jabber:client", fmt.Sprintf("s%d", pc.N), "localhost") + neg.features("pre-auth"))
-	if _, err := pc.Expect("auth"); err != nil {
+	if _, err := p.expect(pc, "auth"); err != nil {
+		return
+	}
+	if b == "abort-auth" { // the server dies while the client waits for the SASL result
+		pc.RST()
 		return
 	}
 	if b == "sasl-failure" {
@@ -90,8 +124,24 @@ func (p *vfC13Peer) handle(pc *vfPeerConn) {
 		}
 	}
 	pc.Send("<success xmlns='" + vfNSSASL + "'/>")
+	if b == "abort-success" { // the server dies right after confirming the authentication: the client's restart header has nowhere to go
+		pc.RST()
+		return
+	}
 	pc.Restart()
-	if _, err := pc.Expect("stream"); err != nil {
+	if e, err := pc.Expect("stream"); err != nil {
+		if e.Local == "message" {
+			// an application stanza where the restarted stream's header belongs: the server aborts, as a real one
+			// would. The attempt was derailed by the application's traffic, not by the plan: it neither counts nor
+			// consumes the planned behaviour.
+			atomic.AddInt32(&p.disturbed, 1)
+			atomic.AddInt32(&p.attempts, -1)
+			if b != "ok" {
+				p.mu.Lock()
+				p.plan = append([]string{b}, p.plan...)
+				p.mu.Unlock()
+			}
+		}
 		return
 	}
 	pc.Send(vfStreamHeader("jabber:client", fmt.Sprintf("s%da", pc.N), "localhost") + neg.features("post-auth"))
@@ -104,6 +154,10 @@ func (p *vfC13Peer) handle(pc *vfPeerConn) {
 		if err != nil {
 			return
 		}
+		if b == "abort-bind" && (e.Is(vfNSSM, "resume") || e.Is("", "iq")) { // ... or while the client waits for the bind / resume result
+			pc.RST()
+			return
+		}
 		switch {
 		case e.Is(vfNSSM, "resume"):
 			pc.Send(fmt.Sprintf("<resumed xmlns='%s' previd='%s' h='0'/>", vfNSSM, e.Attrs["previd"]))
@@ -111,13 +165,13 @@ func (p *vfC13Peer) handle(pc *vfPeerConn) {
 		case e.Is("", "iq") && e.Child("bind") != nil:
 			pc.Send(fmt.Sprintf("<iq type='result' id='%s'><bind xmlns='%s'><jid>test@localhost/s%d</jid></bind></iq>", e.Attrs["id"], vfNSBind, pc.N))
 			if p.sm {
-				if e2, err := pc.Next(); err != nil || !e2.Is(vfNSSM, "enable") {
+				if e2, err := p.expect(pc, "enable"); err != nil || !e2.Is(vfNSSM, "enable") {
 					return
 				}
 				pc.Send(fmt.Sprintf("<enabled xmlns='%s' id='sm%d' resume='true'/>", vfNSSM, pc.N))
 			}
 			if first {
-				if e2, err := pc.Next(); err != nil || !e2.Is("", "presence") {
+				if e2, err := p.expect(pc, "presence"); err != nil || !e2.Is("", "presence") {
 					return
 				}
 			}
@@ -175,6 +229,23 @@ func (p *vfC13Peer) handle(pc *vfPeerConn) {
 			return
 		}
 	}
+}
+
+// diag: what the peer saw on every connection so far, and this client's goroutines (for a violation's witness text)
+func (p *vfC13Peer) diag(c *Client, sm *StreamManager) string {
+	var sb strings.Builder
+	p.mu.Lock()
+	for i, pc := range p.conns {
+		fmt.Fprintf(&sb, " | conn %d: client sent %q", i+1, vfClip2(pc.ClearBytes(), 700))
+	}
+	p.mu.Unlock()
+	cp, sp := fmt.Sprintf("%p", c), fmt.Sprintf("%p", sm)
+	for _, g := range vfGoroutines() {
+		if strings.Contains(g.Text, cp) || strings.Contains(g.Text, sp) {
+			fmt.Fprintf(&sb, " | goroutine: %s", vfClip2(strings.ReplaceAll(g.Text, "\n", " ; "), 900))
+		}
+	}
+	return sb.String()
 }
 
 // vfClientRecvIdle: the client has no receive loop that could still notice a loss - none at all, or one that is
@@ -401,9 +472,9 @@ func vfC13Run(run *vfkit.Run, cs *vfC13Case) {
 				stop()
 				return
 			}
-		case f == "garbage":
+		case f == "garbage" || strings.HasPrefix(f, "abort-"):
 			vp.mu.Lock()
-			vp.plan = append(vp.plan, "garbage")
+			vp.plan = append(vp.plan, f)
 			vp.mu.Unlock()
 			cur.cmds <- "rst"
 		case f == "permanent-sasl":
@@ -472,13 +543,15 @@ func vfC13Run(run *vfkit.Run, cs *vfC13Case) {
 				run.Inconclusive("reconnect-watchdog:" + tag)
 			} else {
 				run.Violation("C13/no-session-after-loss:"+tag, fmt.Sprintf("fault #%d %q: no new session was established and no retry loop is running any more (attempts seen by the peer since the loss: %d; error callbacks: %v)",
-					fi, f, atomic.LoadInt32(&vp.attempts)-attemptsBefore, obs.Errors()), cs)
+					fi, f, atomic.LoadInt32(&vp.attempts)-attemptsBefore, obs.Errors())+vp.diag(c, sm), cs)
 			}
 			stop()
 			return
 		}
 		nEst++
-		if cs.SM && next.kind != "resumed" {
+		// (a server that died while the client was waiting for <resumed/> leaves no resumable state behind: the
+		// client must discard it - C11 - so a fresh bind is the expected outcome there)
+		if cs.SM && next.kind != "resumed" && f != "abort-bind" {
 			run.Violation("C13/not-resumed-although-possible:"+tag, fmt.Sprintf("the peer would have confirmed a resumption, the client bound a fresh session (%s)", next.kind), cs)
 			stop()
 			return
@@ -497,6 +570,9 @@ func vfC13Run(run *vfkit.Run, cs *vfC13Case) {
 			return
 		}
 		run.Count("losses_recovered_"+strings.TrimRight(f, "0123456789"), 1)
+	}
+	if d := atomic.LoadInt32(&vp.disturbed); d > 0 {
+		run.Count("application_stanzas_skipped_inside_negotiations", int64(d))
 	}
 	// exactly one session per loss: decided when no retry loop exists any more
 	if !vfWaitUntil(20*time.Second, func() bool { return !vfRetryLoopAlive() }) {
@@ -535,17 +611,21 @@ func vfC13Run(run *vfkit.Run, cs *vfC13Case) {
 
 func TestVf_C13(t *testing.T) {
 	run := vfkit.Open("C13", "a StreamManager over a real Client against a scripted peer; fault sequences of length 1-4 over {RST, FIN, graceful </stream:stream>, next m in {1,2,4} connections accepted then closed, "+
-		"listener down for about m attempts (ECONNREFUSED), garbage features on the reconnect (transient), SASL failure on the reconnect (permanent)}, with and without resumable stream management; "+
+		"listener down for about m attempts (ECONNREFUSED), garbage features on the reconnect (transient), the server dying in the middle of the reconnect's negotiation - on <auth>, right after <success/>, on the bind/resume request (transient), SASL failure on the reconnect (permanent)}, with and without resumable stream management; "+
 		"oracle: per loss one new session (resumed when possible) proven working both ways, PostConnect once per session, none extra once no retry loop exists, permanent error ends the loop, Stop ends Run; "+
 		"non-trivial = distinct completed sequence")
 	defer run.Close()
 	var rc vfC13Case
 	if run.ReplayCase(&rc) {
-		run.Case(rc)
-		vfC13Run(run, &rc)
+		rep := 1
+		fmt.Sscan(os.Getenv("VF_REPEAT"), &rep)
+		for i := 0; i < rep && run.NViolations() == 0; i++ {
+			run.Case(rc)
+			vfC13Run(run, &rc)
+		}
 		return
 	}
-	alphabet := []string{"rst", "fin", "graceful", "refuse-1", "refuse-2", "refuse-4", "down-1", "down-2", "garbage", "loss-in-postconnect", "stop-during-outage", "permanent-sasl"}
+	alphabet := []string{"rst", "fin", "graceful", "refuse-1", "refuse-2", "refuse-4", "down-1", "down-2", "garbage", "abort-auth", "abort-success", "abort-bind", "loss-in-postconnect", "stop-during-outage", "permanent-sasl"}
 	var cases []*vfC13Case
 	// every single fault, with and without SM
 	for _, smOn := range []bool{false, true} {
